@@ -1435,9 +1435,69 @@ fn boundary_streams(rng: &mut Rng, em: &mut Emitter, thorough: bool) {
     }
 }
 
+/// records in RFC 3597 `\#` form: refused types with well-formed RDATA, and known types whose
+/// RDATA is valid, slightly damaged, or random (the validators must be applied)
+fn generic_streams(rng: &mut Rng, em: &mut Emitter, thorough: bool) {
+    let n = if thorough { 20_000 } else { 1_500 };
+    let mut pool: Vec<Vec<Vec<u8>>> = Vec::new();
+    for i in 0..n {
+        let mut ctx = Ctx::new();
+        ctx.origin = Some(vec![b"o".to_vec()]);
+        let class = *rng.pick(&[1u16, 1, 1, 3, 4, 255]);
+        let r = gen_rr(rng, &ctx, &mut pool, class);
+        let mut wire = r.rdata.wire();
+        let mut ty = r.ty;
+        match i % 5 {
+            0 => {
+                // a refused type (NULL, OPT, TSIG) by mnemonic or number, with plausible RDATA
+                ty = *rng.pick(&[10u16, 41, 250]);
+                if rng.chance(1, 2) {
+                    wire.clear();
+                }
+            }
+            1 => {} // valid RDATA in generic form
+            2 => {
+                // damage: truncate / extend / flip one octet
+                if !wire.is_empty() && rng.chance(1, 2) {
+                    let k = rng.below(wire.len());
+                    wire.truncate(k);
+                } else if rng.chance(1, 2) {
+                    wire.push(rng.byte());
+                } else if !wire.is_empty() {
+                    let k = rng.below(wire.len());
+                    wire[k] = rng.byte();
+                }
+            }
+            3 => {
+                wire = (0..rng.below(12)).map(|_| rng.byte()).collect();
+            }
+            _ => {
+                // known type, other class (the class-specific arms)
+            }
+        }
+        let tyt: Vec<u8> = match (ty, rng.below(2)) {
+            (10, 0) => b"NULL".to_vec(),
+            (41, 0) => b"OPT".to_vec(),
+            (250, 0) => b"TSIG".to_vec(),
+            _ => render_type(rng, ty),
+        };
+        let mut f = b"x. 5 ".to_vec();
+        f.extend(render_class(rng, r.class));
+        f.push(b' ');
+        f.extend(tyt);
+        f.extend_from_slice(format!(" \\# {} ", wire.len()).as_bytes());
+        for b in &wire {
+            f.extend_from_slice(format!("{:02x}", b).as_bytes());
+        }
+        f.extend_from_slice(b"\nnext. 5 IN A 1.2.3.4\n");
+        emit_c24(rng, em, b"", &f);
+    }
+}
+
 pub fn gen(rng: &mut Rng, thorough: bool, em: &mut Emitter) {
     std_streams(rng, thorough, em);
     boundary_streams(rng, em, thorough);
+    generic_streams(rng, em, thorough);
     // 1. pretty-printer stream (C23): zfp with the generating record list as the expectation
     let n = if thorough { 60_000 } else { 5_000 };
     let mut valid_files: Vec<Vec<u8>> = Vec::new();
